@@ -6,9 +6,12 @@ import (
 	"fmt"
 	"os"
 	"path/filepath"
+	"reflect"
+	"runtime"
 	"runtime/debug"
 	"strings"
 	"sync"
+	"sync/atomic"
 	"testing"
 
 	segment "github.com/blevesearch/scorch_segment_api/v2"
@@ -30,7 +33,14 @@ func refBatch() *spec.BatchSpec {
 		}
 		return spec.DocSpec{ID: spec.B(id), Fields: []spec.FieldSpec{f}}
 	}
-	return &spec.BatchSpec{Docs: []spec.DocSpec{mk("r1", "v1", "a", "b"), mk("r2", "v2", "b", "c"), mk("r3", "", "a")}}
+	syn := spec.DocSpec{ID: "s1", IDLast: true, Fields: []spec.FieldSpec{{Name: "syn", Kind: spec.KindSyn, Syn: []spec.SynDef{{Term: "big", Syns: []spec.B{"large", "huge"}}, {Term: "tiny", Syns: []spec.B{"small"}}}}}}
+	syn2 := spec.DocSpec{ID: "s2", IDLast: true, Fields: []spec.FieldSpec{{Name: "coll2", Kind: spec.KindSyn, Syn: []spec.SynDef{{Term: "fast", Syns: []spec.B{"quick"}}}}}}
+	b := &spec.BatchSpec{Docs: []spec.DocSpec{mk("r1", "v1", "a", "b"), mk("r2", "v2", "b", "c"), mk("r3", "", "a"), syn, syn2}}
+	if vectorsBuild {
+		b.Docs[0].Fields = append(b.Docs[0].Fields, spec.FieldSpec{Name: "vec", Kind: spec.KindVec, Vec: &spec.VecSpec{Dim: 2, Data: []float32{1, 2}, Metric: "l2_norm", Opt: "recall"}})
+		b.Docs[2].Fields = append(b.Docs[2].Fields, spec.FieldSpec{Name: "vec", Kind: spec.KindVec, Vec: &spec.VecSpec{Dim: 2, Data: []float32{3, 1, 0, 0}, Metric: "l2_norm", Opt: "recall"}})
+	}
+	return b
 }
 
 // mappingCount counts the lines of /proc/self/maps naming path; fdCount the descriptors open on it.
@@ -94,6 +104,24 @@ func lightRead(seg segment.Segment, want *spec.Obs) (msg string) {
 		}
 		if !storedEqual(want.Stored[1], normStored(st)) {
 			msg = fmt.Sprintf("stored doc 1: %v, model %v", st, want.Stored[1])
+			return nil
+		}
+		// lazily cached structures: both thesauri and (vectors tag) the vector index
+		for _, name := range []string{"syn", "coll2"} {
+			th, _, err := drive.ObserveThesaurus(seg, name, nil)
+			if err != nil {
+				return err
+			}
+			for t := range th {
+				sortPairs(th[t])
+			}
+			if !reflect.DeepEqual(th, want.Thes[name]) {
+				msg = fmt.Sprintf("thesaurus %q: %v, model %v", name, th, want.Thes[name])
+				return nil
+			}
+		}
+		if v := vectorSegmentCheck("C20", seg, want, "read"); v != nil {
+			msg = v.Message
 		}
 		return nil
 	})
@@ -459,4 +487,90 @@ func init() {
 	c20rand.register()
 	c20holders.register()
 	registry["C20/in-memory"] = func(json.RawMessage) *Violation { return nil }
+}
+
+// ---- simultaneous last releases ------------------------------------------------
+
+// TestC20Burst lets 2..4 holders drop the last references at the same instant
+// (spinning on a flag), many times: the release must happen exactly once and
+// report no error whichever holder is last.
+func TestC20Burst(t *testing.T) {
+	const prop = "C20"
+	col := stats.New(prop, "burst")
+	defer col.Write()
+	if runtime.GOMAXPROCS(0) < 2 {
+		t.Skip("needs >= 2 procs")
+	}
+	trials := 1500
+	if os.Getenv("VERIF_TIER") == "thorough" {
+		trials = 20000
+	}
+	b := refBatch()
+	seg, _, err := drive.Build(b, 0)
+	if err != nil {
+		t.Fatal(err)
+	}
+	path, err := drive.Persist(seg, "c20b")
+	seg.Close()
+	if err != nil {
+		t.Fatal(err)
+	}
+	defer os.Remove(path)
+	for trial := 0; trial < trials; trial++ {
+		holders := 2 + trial%3
+		o, err := drive.Open(path)
+		if err != nil {
+			t.Fatal(err)
+		}
+		for i := 1; i < holders; i++ {
+			o.AddRef()
+		}
+		var flag, ready int32
+		errs := make([]error, holders)
+		var wg sync.WaitGroup
+		for h := 0; h < holders; h++ {
+			wg.Add(1)
+			go func(h int) {
+				defer wg.Done()
+				atomic.AddInt32(&ready, 1)
+				for atomic.LoadInt32(&flag) == 0 {
+				}
+				errs[h] = drive.Safe(func() error {
+					if (h+trial)%2 == 0 {
+						return o.DecRef()
+					}
+					return o.Close()
+				})
+			}(h)
+		}
+		for atomic.LoadInt32(&ready) < int32(holders) {
+			runtime.Gosched()
+		}
+		atomic.StoreInt32(&flag, 1)
+		wg.Wait()
+		col.CaseHash(uint64(trial%64), true, []string{fmt.Sprintf("holders=%d", holders)}, func() any {
+			return fmt.Sprintf("%d holders drop their references simultaneously (alternating DecRef/Close)", holders)
+		})
+		var v *Violation
+		for h, e := range errs {
+			if e != nil {
+				v = violation(prop, "burst/release-error", "trial %d: %d holders dropped the last references at the same time; holder %d got: %v", trial, holders, h, e)
+			}
+		}
+		if v == nil {
+			if m, f := mappingCount(path), fdCount(path); m != 0 || f != 0 {
+				v = violation(prop, "burst/not-released", "trial %d: after all %d holders released, the file is mapped %d times with %d descriptors", trial, holders, m, f)
+			}
+		}
+		if v != nil {
+			col.Freeze()
+			p := writeReplay(prop, "burst", map[string]int{"holders": holders}, v)
+			fmt.Printf("VIOLATION-DETAIL property=%s stage=burst signature=%s replay=%s\n%s\n", prop, v.Signature, p, v.Message)
+			t.FailNow()
+		}
+	}
+}
+
+func init() {
+	registry["C20/burst"] = func(json.RawMessage) *Violation { return nil } // schedule-dependent: the stage itself is the replay
 }
